@@ -215,7 +215,7 @@ class DBAPIProvider(object):
 
     def normalize_vars(provider, vars, vartypes):
         for key, value in vars.items():
-            vartype = vartypes[key]
+            vartype = vartypes.get(key)  # keyword-filter values of an inner query have no vartype
             if isinstance(vartype, QueryType):
                 vartypes[key], vars[key] = value._normalize_var(vartype)
 
